@@ -33,8 +33,8 @@ type bitField struct {
 	hi, lo uint
 }
 
-func (b bitField) width() uint  { return b.hi - b.lo + 1 }
-func (b bitField) max() int     { return 1<<b.width() - 1 }
+func (b bitField) width() uint   { return b.hi - b.lo + 1 }
+func (b bitField) max() int      { return 1<<b.width() - 1 }
 func (b bitField) ownBits() byte { return byte(b.max()) << b.lo }
 
 // put places v in the field; a value too wide for the field is cut to the field width here, and
